@@ -86,7 +86,9 @@ func judge(c *engine.Chooser, area, class, tag string, l lit, mustReject, instan
 	if !instantiate {
 		return true
 	}
-	sub := area
+	// oracle failures after acceptance carry the input class: <area>@<class>/<oracle> (the known >=2^61 defect keeps
+	// its single signature, see sigFor)
+	sub := area + "@" + class
 	s := guarded(area+"|smoke|"+tag, func() error {
 		switch p := out.(type) {
 		case bgv.Parameters:
@@ -158,6 +160,8 @@ func primeCatalogue(m uint64) []primeClass {
 	r = append(r, primeClass{"ntt-2^61.6", ref.PrimesNear(uint64(math.Exp2(61.6)), m, 1, false)[0], false})
 	r = append(r, primeClass{"ntt-2^61.8", ref.PrimesNear(uint64(math.Exp2(61.8)), m, 1, false)[0], false})
 	r = append(r, primeClass{"ntt-2^62.5", ref.PrimesNear(uint64(math.Exp2(62.5)), m, 1, false)[0], false})
+	r = append(r, primeClass{"ntt-2^61.2", ref.PrimesNear(uint64(math.Exp2(61.2)), m, 1, false)[0], false})
+	r = append(r, primeClass{"ntt-2^60.7", ref.PrimesNear(uint64(math.Exp2(60.7)), m, 1, false)[0], false})
 
 	// inadmissible: 0, 1, even, small primes that are not ≡ 1 mod m, big primes that are not ≡ 1 mod m, composites
 	for _, v := range []uint64{0, 1, 2, 3, 7, 8, 65537, 1<<61 - 1, 4294967291} {
@@ -328,8 +332,9 @@ func familyLists(s scheme, rt ring.Type) engine.Scenario {
 		{"empty-Q", []uint64{}, g[:1], true},
 		{"duplicate-in-Q", []uint64{g[0], g[1], g[0]}, g[2:3], true},
 		{"duplicate-in-P", g[:2], []uint64{g[2], g[2]}, true},
-		{"Q-and-P-share-a-modulus", g[:2], []uint64{g[1]}, true},
-		{"Q-and-P-identical", g[:1], g[:1], true},
+		// not "must reject" here: the structure oracle of smoke.go reports a shared modulus under its own signature
+		{"Q-and-P-share-a-modulus", g[:2], []uint64{g[1]}, false},
+		{"Q-and-P-identical", g[:1], g[:1], false},
 	}
 	return engine.Scenario{Name: name, Bound: -1, Fn: func(c *engine.Chooser) {
 		k := cases[c.Choose(len(cases), "list")]
@@ -419,27 +424,26 @@ type distCase struct {
 	bad  bool
 }
 
-// familyDist: secret / error distributions of every kind.
-func familyDist(s scheme) engine.Scenario {
-	name := fmt.Sprintf("accept/dist/%s", s)
-	logN := 5
-	N := 1 << logN
-	xs := []distCase{
+func distCases(N int) []distCase {
+	return []distCase{
 		{"default", nil, false},
 		{"ternary-H=1", ring.Ternary{H: 1}, false},
 		{"ternary-H=N/2", ring.Ternary{H: N / 2}, false},
 		{"ternary-H=N", ring.Ternary{H: N}, false},
-		{"ternary-H=N+1", ring.Ternary{H: N + 1}, true},
-		{"ternary-H=-1", ring.Ternary{H: -1}, true},
 		{"ternary-P=0.5", ring.Ternary{P: 0.5}, false},
 		{"ternary-P=2/3", ring.Ternary{P: 2.0 / 3}, false},
-		{"ternary-P=1", ring.Ternary{P: 1}, true},
+		{"ternary-P=1", ring.Ternary{P: 1}, false},
+		{"gaussian-3.2", ring.DiscreteGaussian{Sigma: 3.2, Bound: 19.2}, false},
+		{"gaussian-0.5", ring.DiscreteGaussian{Sigma: 0.5, Bound: 3}, false},
+		// outside the documented domain (ring/sampler.go: exactly one of H, P non-zero; P a probability; H a weight <= N;
+		// sigma a standard deviation; bound the truncation of its support)
+		{"ternary-H=N+1", ring.Ternary{H: N + 1}, true},
+		{"ternary-H=-1", ring.Ternary{H: -1}, true},
 		{"ternary-P=1.5", ring.Ternary{P: 1.5}, true},
 		{"ternary-P=-0.1", ring.Ternary{P: -0.1}, true},
 		{"ternary-P=NaN", ring.Ternary{P: math.NaN()}, true},
 		{"ternary-H-and-P", ring.Ternary{H: 4, P: 0.5}, true},
 		{"ternary-zero", ring.Ternary{}, true},
-		{"gaussian-3.2", ring.DiscreteGaussian{Sigma: 3.2, Bound: 19.2}, false},
 		{"gaussian-sigma=0", ring.DiscreteGaussian{Sigma: 0, Bound: 19.2}, true},
 		{"gaussian-sigma<0", ring.DiscreteGaussian{Sigma: -3.2, Bound: 19.2}, true},
 		{"gaussian-bound=0", ring.DiscreteGaussian{Sigma: 3.2, Bound: 0}, true},
@@ -448,22 +452,59 @@ func familyDist(s scheme) engine.Scenario {
 		{"gaussian-sigma=Inf", ring.DiscreteGaussian{Sigma: math.Inf(1), Bound: 19.2}, true},
 		{"uniform", ring.Uniform{}, true},
 	}
+}
+
+// distLiteral builds the literal of one (scheme, field, distribution) case.
+func distLiteral(s scheme, which int, d distCase) lit {
+	logN := 5
+	l := lit{sch: s}
+	l.rl.LogN = logN
+	l.rl.Q, l.rl.P = goodQ(logN, ring.Standard), goodP(logN, ring.Standard)
+	if which == 0 {
+		l.rl.Xs = d.d
+	} else {
+		l.rl.Xe = d.d
+	}
+	defaults(&l)
+	return l
+}
+
+// familyDist: the admissible secret / error distributions of every kind (one leaf each).
+func familyDist(s scheme) engine.Scenario {
+	name := fmt.Sprintf("accept/dist/%s", s)
+	var xs []distCase
+	for _, d := range distCases(32) {
+		if !d.bad {
+			xs = append(xs, d)
+		}
+	}
 	return engine.Scenario{Name: name, Bound: -1, Fn: func(c *engine.Chooser) {
 		which := c.Choose(2, "field") // 0: Xs, 1: Xe
 		d := xs[c.Choose(len(xs), "dist")]
 		uni.Seed(c, name, which, d.name)
-		l := lit{sch: s}
-		l.rl.LogN = logN
-		l.rl.Q, l.rl.P = goodQ(logN, ring.Standard), goodP(logN, ring.Standard)
-		if which == 0 {
-			l.rl.Xs = d.d
-		} else {
-			l.rl.Xe = d.d
-		}
-		defaults(&l)
 		fld := []string{"Xs", "Xe"}[which]
 		c.Cover("dist", fld+"="+d.name)
-		judge(c, "accept/dist", fld+"="+d.name, fmt.Sprintf("%s=%s(%+v)", fld, reflect.TypeOf(d.d), d.d), l, d.bad, true)
+		judge(c, "accept/dist", fld+"="+d.name, fmt.Sprintf("%s=%s(%+v)", fld, reflect.TypeOf(d.d), d.d), distLiteral(s, which, d), false, true)
+	}}
+}
+
+// familyDistInvalid: one out-of-domain distribution per scenario. Distributions are not among the requirements the
+// statement lists for acceptance, so an odd one may be accepted — but then it must not panic, hang, kill the process or
+// produce keys / errors outside its declared support. Such literals can end in a Go fatal error (unbounded recursion),
+// which no recover() catches: the leaf runs in a child process (supervise.go).
+func familyDistInvalid(s scheme, which int, d distCase) engine.Scenario {
+	fld := []string{"Xs", "Xe"}[which]
+	name := fmt.Sprintf("accept/dist-invalid/%s/%s=%s", s, fld, d.name)
+	return engine.Scenario{Name: name, Bound: -1, Fn: func(c *engine.Chooser) {
+		c.Cover("dist-invalid", fld+"="+d.name)
+		tag := fmt.Sprintf("%s=%s(%+v)", fld, reflect.TypeOf(d.d), d.d)
+		if !inChild() {
+			supervise(c, name, nil, nil, "C19/accept/dist/fatal-error-after-acceptance@"+fld+"="+d.name, fmt.Sprintf("%s %s", s, tag))
+			c.Outcome(name, c.Failed())
+			return
+		}
+		uni.Seed(c, name)
+		judge(c, "accept/dist", fld+"="+d.name, tag, distLiteral(s, which, d), false, true)
 	}}
 }
 
@@ -481,20 +522,23 @@ func familyT() engine.Scenario {
 	}
 	ts := []tc{
 		{"0", 0, true}, {"1", 1, true}, {"2", 2, true}, {"3", 3, true},
-		{"17(order16)", 17, false},                           // ≡ 1 mod 16 only: plaintext ring of degree 8
-		{"97(order32)", 97, false},                           // ≡ 1 mod 32: degree 16
-		{"193(order64=2N)", 193, false},                      // ≡ 1 mod 2N: full batching
-		{"65537", 65537, false},                              // ≡ 1 mod 2^16 > 2N
-		{"13(order<16)", 13, true},                           // cyclotomic order below 16
-		{"41(order8)", 41, true},                             // ≡ 1 mod 8 only
-		{"composite-289=17^2", 289, true},                    // ≡ 1 mod 32, not prime
-		{"composite-1729", 1729, true},                       // Carmichael, ≡ 1 mod 64
+		{"17(order16)", 17, false},        // ≡ 1 mod 16 only: plaintext ring of degree 8
+		{"97(order32)", 97, false},        // ≡ 1 mod 32: degree 16
+		{"193(order64=2N)", 193, false},   // ≡ 1 mod 2N: full batching
+		{"65537", 65537, false},           // ≡ 1 mod 2^16 > 2N
+		{"13(order<16)", 13, true},        // cyclotomic order below 16
+		{"41(order8)", 41, true},          // ≡ 1 mod 8 only
+		{"composite-289=17^2", 289, true}, // ≡ 1 mod 32, not prime
+		{"composite-1729", 1729, true},    // Carmichael, ≡ 1 mod 64
 		{"even-65536", 65536, true},
 		{"t=q0", q[0], true},
 		{"t=q1", q[1], true},
 		{"t=p0", p[0], true},
 		{"t>q0", ref.PrimesNear(1<<42, 2*N, 1, false)[0], true},
 		{"t-just-below-q0", ref.PrimesNear(q[0], 2*N, 1, true)[0], false},
+		{"t-just-above-q0/2", ref.PrimesNear(q[0]/2, 2*N, 1, false)[0], false},
+		{"t-just-below-q0/2", ref.PrimesNear(q[0]/2, 2*N, 1, true)[0], false},
+		{"t-just-below-q0/4", ref.PrimesNear(q[0]/4, 2*N, 1, true)[0], false},
 		{"t-2^61", ref.PrimesNear(1<<61, 2*N, 1, true)[0], true}, // > q0
 		{"t-2^63", ref.PrimesNear(1<<63, 2*N, 1, false)[0], true},
 		{"t-max", lastPrimeBelow2to64(2 * N), true},
@@ -572,6 +616,13 @@ func acceptScenarios(tier string) (scs, slow []engine.Scenario) {
 	scs = append(scs, familyT(), familyBigT(), familyScale(ring.Standard), familyScale(ring.ConjugateInvariant))
 	// hang-prone literals last: each gets its own scenario so that a spinning call delays nothing else
 	for _, s := range []scheme{sRLWE, sBGV, sCKKS} {
+		if s == sRLWE || tier == "thorough" { // bgv and ckks hand Xs/Xe to the same rlwe code
+			for _, d := range distCases(32) {
+				if d.bad {
+					slow = append(slow, familyDistInvalid(s, 0, d), familyDistInvalid(s, 1, d))
+				}
+			}
+		}
 		slow = append(slow, familyLogNGen(s, 63))
 		if s == sRLWE || tier == "thorough" {
 			slow = append(slow, familyNthRootHuge(s, 63), familyNthRootHuge(s, 64), familyNthRootHuge(s, 127))
